@@ -9,10 +9,12 @@ import (
 	"encoding/base64"
 	"encoding/json"
 	"fmt"
+	"hash/fnv"
 	"os"
 	"os/exec"
 	"path/filepath"
 	"regexp"
+	"runtime"
 	"sort"
 	"strconv"
 	"strings"
@@ -127,7 +129,7 @@ type ScenarioStat struct {
 // WorkerResult is what one shard reports.
 type WorkerResult struct {
 	Evaluations int64                  `json:"evaluations"`
-	Distinct    map[string]struct{}    `json:"-"`
+	Distinct    map[uint64]struct{}    `json:"-"` // FNV-64 of the keys (memory: millions of long keys per shard)
 	DistinctN   int64                  `json:"distinct"`
 	States      int64                  `json:"states"`
 	Transitions int64                  `json:"transitions"`
@@ -143,16 +145,18 @@ type WorkerResult struct {
 
 // Ctx is the context of one shard.
 type Ctx struct {
-	Check    *Check
-	Tier     string
-	Shard    int
-	NShards  int
-	Deadline time.Time
-	Res      *WorkerResult
-	Known    map[string]string // signature -> text
-	caseIdx  int
-	Seed     int64
-	sigSeen  map[string]bool
+	Check        *Check
+	Tier         string
+	Shard        int
+	NShards      int
+	Deadline     time.Time
+	memStop      bool
+	expiredCalls int
+	Res          *WorkerResult
+	Known        map[string]string // signature -> text
+	caseIdx      int
+	Seed         int64
+	sigSeen      map[string]bool
 }
 
 // Thorough reports the tier.
@@ -160,9 +164,24 @@ func (c *Ctx) Thorough() bool { return c.Tier == "thorough" }
 
 // Expired reports whether the internal budget is used up.
 func (c *Ctx) Expired() bool {
+	if c.memStop {
+		return true
+	}
 	if time.Now().After(c.Deadline) {
 		c.Res.Incomplete = true
 		return true
+	}
+	// the sandbox has no memory limit: a shard whose heap grows beyond 3 GiB stops exploring (reported as incomplete)
+	c.expiredCalls++
+	if c.expiredCalls%256 == 0 {
+		var ms runtime.MemStats
+		runtime.ReadMemStats(&ms)
+		if ms.HeapAlloc > 3<<30 {
+			c.memStop = true
+			c.Res.Incomplete = true
+			c.Note("shard %d stopped early: heap of %d MiB exceeds the 3 GiB guard", c.Shard, ms.HeapAlloc>>20)
+			return true
+		}
 	}
 	return false
 }
@@ -181,10 +200,16 @@ func (c *Ctx) Count(key string) {
 	c.Res.Evaluations++
 	if key != "" {
 		if c.Res.Distinct == nil {
-			c.Res.Distinct = map[string]struct{}{}
+			c.Res.Distinct = map[uint64]struct{}{}
 		}
-		c.Res.Distinct[key] = struct{}{}
+		c.Res.Distinct[hashKey(key)] = struct{}{}
 	}
+}
+
+func hashKey(k string) uint64 {
+	h := fnv.New64a()
+	h.Write([]byte(k))
+	return h.Sum64()
 }
 
 // Sample records an example case (a few per shard).
@@ -326,10 +351,10 @@ func (c *Ctx) Explore(sc *explore.Scenario, maxD int, sig SigFunc) *explore.Stat
 	c.Res.States += int64(len(st.States))
 	c.Res.Transitions += st.Steps
 	if c.Res.Distinct == nil {
-		c.Res.Distinct = map[string]struct{}{}
+		c.Res.Distinct = map[uint64]struct{}{}
 	}
 	for o := range st.Outcomes {
-		c.Res.Distinct[sc.Name+"|"+sc.Params+"|"+o] = struct{}{}
+		c.Res.Distinct[hashKey(sc.Name+"|"+sc.Params+"|"+o)] = struct{}{}
 	}
 	return st
 }
@@ -388,8 +413,7 @@ func WorkerMain(id, tier string, shard, n int, deadline time.Time) int {
 		DistinctKeys []string `json:"distinct_keys"`
 	}{WorkerResult: c.Res}
 	for k := range c.Res.Distinct {
-		h := sha1.Sum([]byte(k))
-		out.DistinctKeys = append(out.DistinctKeys, fmt.Sprintf("%x", h[:8]))
+		out.DistinctKeys = append(out.DistinctKeys, fmt.Sprintf("%x", k))
 	}
 	b, _ := json.Marshal(out)
 	os.Stdout.Write(b)
@@ -533,7 +557,7 @@ func CheckMain(id, tier string) int {
 		go func(i int) {
 			defer wg.Done()
 			cmd := exec.Command(self, "worker", id, tier, strconv.Itoa(i), strconv.Itoa(n), strconv.FormatInt(deadline.UnixNano(), 10))
-			cmd.Env = append(os.Environ(), "GOMAXPROCS=2", "GORACE=exitcode=0")
+			cmd.Env = append(os.Environ(), "GOMAXPROCS=2", "GORACE=exitcode=0", "GOMEMLIMIT=2GiB")
 			var stderr, stdout lockedBuf
 			cmd.Stderr = &stderr
 			cmd.Stdout = &stdout
